@@ -147,22 +147,28 @@ def run_case(c, R):
             bd = work_raw.Boundary(src3)
             with common.quiet():
                 v = rvb3.collect_data_block(digitize=False, requantize=False, verbose=False)
+                # between two blocks of one stream the user asks a filterbank for its unit-noise estimate (an uncached
+                # channelisation on the same object): the stream must continue undisturbed
+                rvb3.filterbank[0][0].estimate_channelized_stds(factor=30, seed=1)
+                v2 = rvb3.collect_data_block(digitize=False, requantize=False, verbose=False)
             bd.detach()
             from ..ref import pfb as rpfb
             obsn = cfg['nants'] * cfg['nchan']
             R.check(np.shape(v) == (obsn, sz['block_size'] // obsn), 'collect-direct-shape', shape=list(np.shape(v)))
-            okall = True
-            for a in range(cfg['nants']):
-                for p in range(cfg['npol']):
-                    stream = np.concatenate([np.asarray(arr[a][p]) for _, arr in bd.log])
-                    X = rpfb.ref_pfb(stream, window, cfg['M'], cfg['P'])[:sz['spb'], cfg['start_chan']:cfg['start_chan'] + cfg['nchan']]
-                    sub = np.asarray(v)[a * cfg['nchan']:(a + 1) * cfg['nchan']]
-                    re = sub[:, 2 * p::2 * cfg['npol']]
-                    im = sub[:, 2 * p + 1::2 * cfg['npol']]
-                    tol = 1e-9 * max(1.0, float(np.max(np.abs(X))))
-                    if re.shape != X.T.shape or np.max(np.abs(re - X.real.T)) > tol or np.max(np.abs(im - X.imag.T)) > tol:
-                        okall = False
-            R.check(okall, 'collect-direct-unquantised-values')
+            for bi_, vv in enumerate((v, v2)):
+                okall = True
+                for a in range(cfg['nants']):
+                    for p in range(cfg['npol']):
+                        stream = np.concatenate([np.asarray(arr[a][p]) for _, arr in bd.log])
+                        X = rpfb.ref_pfb(stream, window, cfg['M'], cfg['P'])[bi_ * sz['spb']:(bi_ + 1) * sz['spb'],
+                                                                               cfg['start_chan']:cfg['start_chan'] + cfg['nchan']]
+                        sub = np.asarray(vv)[a * cfg['nchan']:(a + 1) * cfg['nchan']]
+                        re = sub[:, 2 * p::2 * cfg['npol']]
+                        im = sub[:, 2 * p + 1::2 * cfg['npol']]
+                        tol = 1e-9 * max(1.0, float(np.max(np.abs(X))))
+                        if re.shape != X.T.shape or np.max(np.abs(re - X.real.T)) > tol or np.max(np.abs(im - X.imag.T)) > tol:
+                            okall = False
+                R.check(okall, 'collect-direct-unquantised-values' + (':block-after-uncached-filterbank-call' if bi_ else ''))
         elif c['mode'] == 'partition':
             R.bucket('partition-sweep')
             base = dict(cfg, period_dig=-1, period_rq=-1, N_dig=cfg['P'] * cfg['M'], N_rq=cfg['M'])
